@@ -237,6 +237,8 @@ def check_exchange_result(ck):
     fins = [n for n, c in cfg.find(lambda x: isinstance(x, ast.Call) and q.call_attr(x) == "finish" and not (q.dotted(x.func.value) or "").startswith("self"))]
     ck.floor(R, len(fins), 1, "delegate.finish() sites")
     detached = atom_edges(cfg, lambda a: True if (isinstance(a, ast.Compare) and isinstance(a.ops[0], ast.Is) and q.dotted(a.left) == "self.stream" and q.is_const(a.comparators[0], None)) else None)
+    closed_t = atom_edges(cfg, lambda a: True if (isinstance(a, ast.Call) and q.call_attr(a) in ("closed", "is_closing") and (q.dotted(a.func.value) or "").endswith("stream")) else None)
+    detached = detached | closed_t
     n = 0
     for f in fins:
         r = reach_without(cfg, detached, start=f.id, follow_exc=False)
@@ -247,6 +249,92 @@ def check_exchange_result(ck):
     ck.floor(R, n, 1, "returns after a completed exchange")
     from . import c01 as _c01
     _c01.check_serving_loop(ck, R)
+
+
+def check_closed_stops_serving(ck):
+    """Once the response closed the connection (_finish_request -> close()), no further request of that connection may be
+    handled: either _read_message reports success only with the stream known open since its last suspension point, or
+    the serving loop tests the stream before it reads the next request (data of a pipelined request may already sit
+    in the read buffer of the closed stream, and reading from a closed stream's buffer succeeds)."""
+    R = "C03.closed-stops-serving"
+    fi = _F(ck, H1, "HTTP1Connection._read_message")
+    lp = _F(ck, H1, "HTTP1ServerConnection._server_request_loop")
+
+    def open_edges(cfg):
+        return atom_edges(cfg, lambda a: False if (isinstance(a, ast.Call) and q.call_attr(a) in ("closed", "is_closing") and (q.dotted(a.func.value) or "").endswith("stream")) else None)
+
+    def stale_points(cfg):
+        # places after which "the stream is open" is no longer known: function entry, suspension points, explicit closes
+        return [n.id for n in cfg.nodes if n.id in cfg.reachable() and (n.kind == "entry" or n.suspends or node_mentions(n, lambda x: q.is_call(x, "self.close", "self.stream.close", ".close") and isinstance(x, ast.Call)))]
+
+    # (1) inside _read_message: every `return <truthy>` is reached only with a fresh not-closed test
+    cfg = fi.cfg
+    E = open_edges(cfg)
+    unguarded = set()
+    for sp in stale_points(cfg):
+        unguarded |= reach_without(cfg, E, start=sp, follow_exc=False)
+    rets = [n for n in cfg.stmt_nodes(lambda n: n.kind == "stmt" and isinstance(n.ast, ast.Return) and not (isinstance(n.ast.value, ast.Constant) and not n.ast.value.value))]
+    ck.floor(R, len(rets), 1, "success returns of _read_message")
+    inner_ok = all(r.id not in unguarded for r in rets)
+    # (2) in the serving loop: the next iteration is reached only through a fresh not-closed test
+    lcfg = lp.cfg
+    LE = open_edges(lcfg)
+    heads = [n for n in lcfg.nodes if n.kind == "join" and n.label == " while"]
+    reads = [n for n, c in lcfg.find(lambda x: isinstance(x, ast.Call) and q.call_attr(x) == "read_response")]
+    if not heads or not reads:
+        raise AnalysisError("_server_request_loop: loop head / read_response not found")
+    loop_ok = True
+    for rd in reads:
+        again = reach_without(lcfg, LE, start=rd.id, follow_exc=False)
+        if any(h.id in again for h in heads):
+            loop_ok = False
+    for r in rets:
+        ck.ob(R, fi, r.ast, inner_ok or loop_ok, "after the response closed the connection no further (pipelined) request is handled: success is reported / the loop continues only with the stream tested open after the last suspension point")
+
+
+def check_early_finish_announced(ck):
+    """write_headers immediately followed by finish() while the request body is still unread (RequestHandler.finish()
+    of a handler that answers before reading the body): the close that finish() decides must already be announced."""
+    R = "C03.early-finish-announced"
+    wh = _F(ck, H1, "HTTP1Connection.write_headers")
+    fn = _F(ck, H1, "HTTP1Connection.finish")
+    ps = [p for p in wh.params() if p != "self"]
+    n = 0
+    for ver, conn in (("HTTP/1.1", None), ("HTTP/1.1", "keep-alive"), ("HTTP/1.0", "keep-alive"), ("HTTP/1.0", "Keep-Alive")):
+        ev = _evaluator(ck, "write_headers")
+        me = Obj("self", is_client=False, _disconnect_on_finish=False, _read_finished=False, _write_finished=False, _chunking_output=False, _expected_content_remaining=None,
+                 _request_start_line=Obj("req", version=ver, method="POST", path="/"), _request_headers=_req_headers(conn, True, False),
+                 stream=Obj("stream"), _response_start_line=None, _pending_write=None, _write_future=None, no_keep_alive=False)
+        resp = HeaderMap({"Content-Type": "text/plain", "Content-Length": "4"})
+        env = {"self": me, ps[0]: Obj("start_line", version="HTTP/1.1", code=200, reason="OK"), ps[1]: resp}
+        for p in ps[2:]:
+            env[p] = None
+        for o in [o for o in ev.run(wh.node, env) if o.kind != "raise"]:
+            h = o.state.env[ps[1]]
+            if not isinstance(h, HeaderMap) or h.poisoned:
+                raise AnalysisError("write_headers hands its headers to code the evaluator does not model")
+            ch = _lc(h.get("Connection"))
+            me2 = o.state.env["self"]
+            me2.attrs["_expected_content_remaining"] = 0
+            me2.attrs["_pending_write"] = None
+            closes = []
+
+            def on_call(st, c, d, args, closes=closes):
+                if d == "self._finish_request" or any(isinstance(x, ast.Attribute) and q.dotted(x) == "self._finish_request" for a in list(c.args) + [k.value for k in c.keywords] for x in ast.walk(a)):
+                    closes.append(st.env["self"].attrs.get("_disconnect_on_finish", UNK))
+
+            ev2 = _evaluator(ck, "finish", on_call=on_call)
+            outs2 = [x for x in ev2.run(fn.node, {"self": me2}) if x.kind != "raise"]
+            if not outs2 or not closes or UNK in closes or ch is UNK:
+                raise AnalysisError("write_headers + finish: outcome not decidable by folding")
+            will_close = all(c is True for c in closes)
+            n += 1
+            tag = "%s request%s, body unread when the handler finishes" % (ver, "" if conn is None else " with Connection: %s" % conn)
+            if ver == "HTTP/1.1":
+                ck.ob(R, wh, wh.node, (not will_close) or ch == "close", "%s: the server closes after the response, so the response says 'Connection: close' (it says %r)" % (tag, ch), construct="early finish HTTP/1.1: close not announced")
+            else:
+                ck.ob(R, wh, wh.node, (not will_close) or ch != "keep-alive", "%s: the server closes after the response, so no Keep-Alive acknowledgement is sent (Connection=%r)" % (tag, ch), construct="early finish HTTP/1.0: Keep-Alive acknowledged")
+    ck.floor(R, n, 4, "folded write_headers + finish sequences")
 
 
 def check_per_request_state(ck):
@@ -384,14 +472,18 @@ def check_write_headers(ck):
             continue
         key = (ver, _lc(conn), disc0)
         row = rows.setdefault(key, {RA: None, RB: None, RC: None, RD: None, RE: None, "node": None})
-        for method, code, has_cl in itertools.product(("GET", "HEAD", "POST"), (200, 204, 304, 101), (False, True)):
+        for method, code, has_cl, app_conn in itertools.product(("GET", "HEAD", "POST"), (200, 204, 304, 101), (False, True), (None, "keep-alive", "Upgrade")):
+            if app_conn is not None and not (ver == "HTTP/1.1" and disc0):
+                continue  # an application-supplied Connection header is only examined for the close announcement
             ev = _evaluator(ck, "write_headers")
-            me = Obj("self", is_client=False, _disconnect_on_finish=disc0, _chunking_output=False, _expected_content_remaining=None,
+            me = Obj("self", is_client=False, _disconnect_on_finish=disc0, _read_finished=True, _write_finished=False, _chunking_output=False, _expected_content_remaining=None,
                      _request_start_line=Obj("req", version=ver, method=method, path="/"), _request_headers=_req_headers(conn, False, False),
                      stream=Obj("stream"), _response_start_line=None, _pending_write=None, _write_future=None, no_keep_alive=False)
             resp = HeaderMap({"Content-Type": "text/plain"})
             if has_cl:
                 resp["Content-Length"] = "5"
+            if app_conn is not None:
+                resp["Connection"] = app_conn  # the handler set its own Connection response header
             env = {"self": me, ps[0]: Obj("start_line", version="HTTP/1.1", code=code, reason="X"), ps[1]: resp}
             for p in ps[2:]:
                 env[p] = UNK
@@ -410,9 +502,11 @@ def check_write_headers(ck):
                 chunking = s.get("_chunking_output", UNK)
                 if disc is UNK or chunking is UNK or ch is UNK:
                     raise AnalysisError("write_headers: flag/Connection header not decidable by constant folding (%s %s %s)" % (ver, conn, code))
-                desc = "method=%s status=%s Content-Length=%s" % (method, code, has_cl)
+                desc = "method=%s status=%s Content-Length=%s%s" % (method, code, has_cl, "" if app_conn is None else " handler-supplied Connection=%r" % app_conn)
                 if ver == "HTTP/1.1" and disc and ch != "close":
                     row[RA] = row[RA] or "Connection=%r for %s" % (ch, desc)
+                if app_conn is not None:
+                    continue
                 if ver == "HTTP/1.1" and disc and ch == "close":
                     seen_close = True
                 if ch == "keep-alive":
@@ -454,11 +548,15 @@ def run(ck):
     ck.rule("C03.undelimited-closes", "write_headers (server): a response that is neither bodiless, chunked nor Content-Length-delimited leaves _disconnect_on_finish set")
     ck.rule("C03.no-needless-close", "write_headers (server): _disconnect_on_finish is not raised for a bodiless, chunked or Content-Length-delimited response")
     ck.rule("C03.exchange-returns-true", "_read_message returns True after a completed exchange on an attached stream; the serving loop is unbounded")
+    ck.rule("C03.closed-stops-serving", "after the response closed the connection no further request of it is handled: _read_message's success / the serving loop's continuation needs a not-closed test made after the last suspension point")
+    ck.rule("C03.early-finish-announced", "write_headers followed at once by finish() with the request body unread: the close decided by finish() is announced (HTTP/1.1: Connection: close; HTTP/1.0: no Keep-Alive acknowledgement)")
     ck.rule("C03.per-request-state", "persistence flags start False in a connection object created per request; only the anchored mechanisms write _disconnect_on_finish")
     ck.rule("C03.finish-request-closes", "_finish_request closes the connection iff server and _disconnect_on_finish; close() closes the attached stream")
     check_table(ck)
     check_read_message(ck)
     check_exchange_result(ck)
+    check_closed_stops_serving(ck)
+    check_early_finish_announced(ck)
     check_per_request_state(ck)
     check_finish(ck)
     check_write_headers(ck)
@@ -605,6 +703,8 @@ MUTANTS = [
     ("F4 repair undone: undelimited HTTP/1.0 response keeps the connection", _m(WH, remove_stmts(lambda st: isinstance(st, ast.If) and "_chunking_output" in _u(st.test) and "_disconnect_on_finish = True" in _u(st))), "C03.undelimited-closes"),
     ("F4 repair placed after the Connection header was chosen", _m(WH, _swap_after(lambda st: isinstance(st, ast.If) and "_chunking_output" in _u(st.test) and "_disconnect_on_finish = True" in _u(st), lambda st: isinstance(st, ast.If) and "keep-alive" in _u(st.test))), ("C03.keepalive-only-when-staying", "C03.close-announced")),
     ("close-when-undelimited block ignores Content-Length (delimited HTTP/1.0 keep-alive responses closed)", _m(WH, replace_expr(lambda n: isinstance(n, ast.BoolOp) and "not self._chunking_output" in _u(n), lambda n: ast.BoolOp(op=ast.And(), values=[v for v in n.values if "Content-Length" not in _u(v)]))), "C03.no-needless-close"),
+    ("seeded C03-adv5: Connection: close only when the handler supplied no Connection header", _m(WH, replace_expr(lambda n: isinstance(n, ast.BoolOp) and isinstance(n.op, ast.And) and "HTTP/1.1" in _u(n) and "_disconnect_on_finish" in _u(n), lambda n: ast.BoolOp(op=ast.And(), values=n.values + [parse_expr('"Connection" not in headers')]))), "C03.close-announced"),
+    ("Connection: close set with setdefault (a handler-supplied value wins)", _m(WH, replace_stmt(lambda st: isinstance(st, ast.Assign) and _u(st) == "headers['Connection'] = 'close'", lambda st: [parse_stmt('headers["Connection"] = headers.get("Connection", "close")')])), "C03.close-announced"),
     ("Keep-Alive acknowledgement dropped", _m(WH, remove_stmts(lambda st: isinstance(st, ast.If) and "keep-alive" in _u(st.test))), "C03.keepalive-acknowledged"),
     ("Keep-Alive acknowledgement compares case-sensitively", _m(WH, replace_expr(lambda n: isinstance(n, ast.Call) and _u(n) == "self._request_headers.get('Connection', '').lower()", lambda n: n.func.value)), "C03.keepalive-acknowledged"),
     ("close-when-undelimited block also fires for HEAD responses", _m(WH, replace_expr(lambda n: isinstance(n, ast.BoolOp) and "not self._chunking_output" in _u(n), lambda n: ast.BoolOp(op=ast.And(), values=[v for v in n.values if "HEAD" not in _u(v)]))), "C03.no-needless-close"),
